@@ -439,7 +439,7 @@ theorem processNode_span (tr : Heap → Nat → Bool) (mm : Nat → List MetaAtt
       exact (processNode_span tr mm root k s v s' kwf ksub hi0 si (pre.mono k1 k2) h).widen k1 k2
     | k :: k2 :: rest, h, hk =>
       simp only [processNode] at h
-      exact processFirstNT_span tr mm root (k :: k2 :: rest) _ _ s v s' hk hi0 si pre h
+      exact processFirstNT_span tr mm root _ (k :: k2 :: rest) _ _ s v s' hk hi0 si pre h
   | .nt (.obj cls) ks, s, v, s', hwf, hsub, hi0, si, pre, h => by
     have hk := KidsOK.of_node hwf hsub
     have hne := hwf.nonempty
@@ -571,18 +571,18 @@ theorem processKids_span (tr : Heap → Nat → Bool) (mm : Nat → List MetaAtt
       have p2 := processKids_span tr mm root ks k.posEnd hi s1 s' hk.tail k2 ihp.1.inv ih.si pre1 h
       exact Post.chain ih (processKids_post tr mm ks s1 s' ihp.1.inv h) p2 k1 (Nat.le_of_lt k3) k2
 
-theorem processFirstNT_span (tr : Heap → Nat → Bool) (mm : Nat → List MetaAttr) (root : PT) : (ks : List PT) → ∀ (lo hi : Nat) (s : St)
+theorem processFirstNT_span (tr : Heap → Nat → Bool) (mm : Nat → List MetaAttr) (root : PT) (fb : Bool) : (ks : List PT) → ∀ (lo hi : Nat) (s : St)
     (v : Val) (s' : St), KidsOK root ks lo hi → Inv s → SI root s.heap → Pre s lo hi →
-    processFirstNT tr mm ks s = some (v, s') → Post root s s' lo hi
+    processFirstNT tr mm fb ks s = some (v, s') → Post root s s' lo hi
   | [], lo, hi, s, v, s', _, _, si, _, h => by
     simp only [processFirstNT, Option.some.injEq, Prod.mk.injEq] at h
     obtain ⟨rfl, rfl⟩ := h
     exact Post.refl si
   | k :: ks, lo, hi, s, v, s', hk, hi0, si, pre, h => by
     simp only [processFirstNT] at h
-    by_cases ht : k.isTerm = true
+    by_cases ht : (k.isTerm || k.isMatchNT) = true
     · simp only [ht, if_true] at h
-      exact processFirstNT_span tr mm root ks lo hi s v s' hk.tail_same hi0 si pre h
+      exact processFirstNT_span tr mm root fb ks lo hi s v s' hk.tail_same hi0 si pre h
     · simp only [ht, Bool.false_eq_true, if_false] at h
       obtain ⟨kwf, ksub, k1, _, k2⟩ := hk.head
       exact (processNode_span tr mm root k s v s' kwf ksub hi0 si (pre.mono k1 k2) h).widen k1 k2
